@@ -295,7 +295,9 @@ def _fd_gap(cfg, xv, gv, h=None):
         h = min(1e-6, 1e-4 * max(float(np.abs(xv).max()), float(cfg.get('magbias') or 0.0), 1e-30))
     xr = rt.tensor(xv, requires_grad=True)
     out = _run(symtorch.real(), cfg, xr)
-    gr = rt.autograd.grad([out], [xr], [rt.tensor(gv)], allow_unused=True)[0]
+    gr = rt.autograd.grad([out], [xr], [rt.tensor(gv)], allow_unused=True, retain_graph=bool(cfg.get('twice')))[0]
+    if cfg.get('twice'):
+        gr = rt.autograd.grad([out], [xr], [rt.tensor(gv)], allow_unused=True)[0]      # the second pass through the same graph is judged
     gr = np.zeros(xv.shape) if gr is None else gr.detach().numpy()
     f = lambda z: float((_run(symtorch.real(), cfg, rt.tensor(z)).detach().numpy() * gv).sum())
     worst = 0.0
